@@ -4,6 +4,7 @@ package sync
 import (
 	"reflect"
 	rsync "sync"
+	"unsafe"
 
 	"github.com/cbeuw/Cloak/internal/vrt"
 )
@@ -337,6 +338,9 @@ func (p *Pool) Get() any {
 		return nil
 	}
 	if vrt.PoolRecycle() {
+		// a recycling pool is shared state: Get and Put are events on it, so that two executions that
+		// differ in who got whose buffer are different states for the explorer
+		vrt.Point(vrt.ObjAt(uintptr(unsafe.Pointer(p)), "sync.Pool"), true, "Pool.Get", nil)
 		if p.gen != vrt.Gen() {
 			p.stack, p.gen = nil, vrt.Gen()
 		}
@@ -361,6 +365,7 @@ func (p *Pool) Put(x any) {
 		return
 	}
 	if vrt.PoolRecycle() {
+		vrt.Point(vrt.ObjAt(uintptr(unsafe.Pointer(p)), "sync.Pool"), true, "Pool.Put", nil)
 		if p.gen != vrt.Gen() {
 			p.stack, p.gen = nil, vrt.Gen()
 		}
@@ -376,7 +381,20 @@ func (p *Pool) Put(x any) {
 	default:
 		v := reflect.ValueOf(x)
 		if v.Kind() == reflect.Ptr && !v.IsNil() && v.Elem().Kind() == reflect.Struct && v.Elem().CanSet() {
-			v.Elem().Set(reflect.Zero(v.Elem().Type()))
+			// byte slices held by the struct (a bytes.Buffer's storage) are scribbled over first: a slice taken
+			// from the object before the Put and used afterwards then shows garbage
+			e := v.Elem()
+			for i := 0; i < e.NumField(); i++ {
+				f := e.Field(i)
+				if f.Kind() == reflect.Slice && f.Type().Elem().Kind() == reflect.Uint8 && f.CanAddr() {
+					b := *(*[]byte)(unsafe.Pointer(f.UnsafeAddr()))
+					full := b[:cap(b)]
+					for j := range full {
+						full[j] = 0xAA
+					}
+				}
+			}
+			e.Set(reflect.Zero(e.Type()))
 		}
 	}
 }
